@@ -135,6 +135,51 @@ def run(ctx):
 
     # the MH2O writer lays later layers out by summing VertexDataArray::byte_size(): per variant, one element must count as many
     # bytes as the vertex type that variant holds (evaluated through whatever helpers / tables byte_size goes through)
+    # parsed tile -> builder -> built tile: every content list is carried under its own name (several have the same type: the three
+    # name lists, the blend-mesh chunks, the Option<..> texture chunks — a crossed pair still compiles)
+    R_carry = ctx.rule("C14.conversion-carries-each-field-under-its-own-name", "in from_parsed / from_root_adt / build every field F of the produced struct literal that the source struct also has derives from source.F and from no other field of the source", floor=55)
+    afn = {f_.path: f_ for f_ in adt.fn_list if f_.hir and f_.kind != "Closure"}
+    for cp in ("builder::adt_builder::AdtBuilder::from_parsed", "builder::built_adt::BuiltAdt::from_root_adt", "builder::adt_builder::AdtBuilder::build", "builder::built_adt::BuiltAdt::new"):
+        f = next((f_ for f_ in adt.fn_list if f_.hir and f_.kind != "Closure" and norm(f_.path).endswith(cp)), None)
+        if f is None:
+            ctx.bad(R_carry, "%s|missing" % cp.split("::")[-1], "-", "conversion function not found", "anchor gone")
+            continue
+        ctx.saw_fn(f)
+        short = cp.split("::")[-1]
+        pn = [b for p_ in f.hir["params"] for b in hirq.pat_binds(p_)]
+        src = pn[0] if pn else None
+        # the produced value: a struct literal of the built type, or a positional constructor call whose parameter names give the slots
+        slots = []
+        for n in hirq.walk(f.hir["body"]):
+            if n.get("k") == "struct" and re.search(r"::(AdtBuilder|BuiltAdt)$", (n.get("res") or {}).get("def") or adt.ty(n.get("t")) or "") and len(n.get("fields") or []) >= 10:
+                slots += [(nm, e) for nm, e in n["fields"]]
+            if n.get("k") == "call" and (n.get("fn") or "") in afn and re.search(r"::(AdtBuilder|BuiltAdt)::new$", n["fn"]) and len(n.get("args") or []) >= 10:
+                gp = [b for p_ in afn[n["fn"]].hir["params"] for b in hirq.pat_binds(p_)]
+                if len(gp) == len(n["args"]):
+                    slots += list(zip(gp, n["args"]))
+        if src is None or not slots:
+            ctx.bad(R_carry, "%s|shape" % short, f.where, "no struct literal / constructor call of the produced type found", "shape changed")
+            continue
+        names = {nm for nm, _ in slots}
+        for nm, e in slots:
+            used = set()
+            for v in [e] + [x for x in hirq.value_leaves(f.hir["body"], e) if x is not None]:
+                for x in hirq.walk(v):
+                    if x.get("k") == "field" and hirq.strip(x["e"]).get("k") == "path" and (hirq.strip(x["e"]).get("res") or {}).get("local") == src and x["name"] in names:
+                        used.add(x["name"])
+                    # a constructor's own parameters are the source
+                    if x.get("k") == "path" and (x.get("res") or {}).get("local") in names and x["res"]["local"] in pn and short == "new":
+                        used.add(x["res"]["local"])
+            if not used and nm == "version":
+                continue
+            inst = {"fn": short, "field": nm}
+            if used == {nm}:
+                ctx.ok(R_carry, inst)
+            elif not used:
+                ctx.bad(R_carry, "%s|%s|not-carried" % (short, nm), "%s:%d" % (f.file, (e or {}).get("ln") or 0), "`%s` is built from `%s`, not from the source's `%s`" % (nm, hirq.render(e)[:40], nm), "content of the source tile is dropped by the conversion: parse -> rebuild -> parse loses it")
+            else:
+                ctx.bad(R_carry, "%s|%s|crossed" % (short, nm), "%s:%d" % (f.file, (e or {}).get("ln") or 0), "`%s` derives from %s" % (nm, ", ".join(sorted(used))), "two lists of the same type are exchanged (or merged) by the conversion: the rebuilt tile carries one chunk's content under another's name")
+
     R_vsz = ctx.rule("C14.mh2o-vertex-array-size-matches-its-vertex-type", "for each VertexDataArray variant, byte_size() with one vertex equals <payload vertex type>::SIZE", floor=4)
     from .c10 import xval as _xval, _NoEval as _NoEv
     vda = next((a_ for a_ in adt.items["adts"] if a_["path"].endswith("::VertexDataArray")), None)
